@@ -137,6 +137,82 @@ Lemma unversioned_meter_refuted :
   = fail "view_applies_iff_selectors_match:unversioned_meter" ++ fail "view_applies_iff_selectors_match:unversioned_meter".
 Proof. vm_compute. reflexivity. Qed.
 
+(* ---------- concurrent requests (PRACE): the model is the sequential registry on the script, and it meets the spec *)
+Definition shaped_req (q : lreq) : Prop := q_name q = [] /\ q_attrs q = [].
+Definition prace_good (kind : N) (threads : list (list lreq)) : Prop :=
+  kind = 2%N \/ Forall (Forall shaped_req) threads.
+
+Lemma expected_indices_map : forall {A B} (P : A -> Prop) (f : A -> B) (eqb1 : A -> A -> bool) (eqb2 : B -> B -> bool) l,
+  (forall x y, P x -> P y -> eqb2 (f x) (f y) = eqb1 x y) -> Forall P l ->
+  expected_indices eqb2 (map f l) = expected_indices eqb1 l.
+Proof.
+  intros A B P f eqb1 eqb2 l H HP. unfold expected_indices. rewrite map_map. apply map_ext_in. intros x Hx.
+  assert (Px : P x) by (rewrite Forall_forall in HP; auto).
+  clear Hx. induction HP as [|y l Py HP IH]; [reflexivity|]. cbn. rewrite (H y x Py Px). now rewrite IH.
+Qed.
+
+Lemma shaped_lreq_eqb : forall x y, shaped_req x -> shaped_req y -> scope_eqb (q_scope x) (q_scope y) = lreq_eqb x y.
+Proof. intros x y [Hx1 Hx2] [Hy1 Hy2]. unfold lreq_eqb. rewrite Hx1, Hy1, Hx2, Hy2. cbn. now rewrite andb_true_r. Qed.
+
+Lemma gets_of_map : forall (reqs : list lreq), gets_of (map (fun q => MGet (q_scope q)) reqs) = map q_scope reqs.
+Proof. induction reqs as [|q reqs IH]; cbn; [reflexivity | now rewrite IH]. Qed.
+
+Lemma prace_indices_spec : forall kind r d reqs, (kind = 2%N \/ Forall shaped_req reqs) ->
+  prace_indices kind r d reqs = expected_indices lreq_eqb reqs.
+Proof.
+  intros kind r d reqs H. unfold prace_indices.
+  destruct (kind =? 0)%N eqn:K0; [|destruct (kind =? 1)%N eqn:K1].
+  - destruct H as [-> | H]; [discriminate|].
+    rewrite (proj1 (nats_eqb_eq _ _) (tracers_ok_lemma r d (map q_scope reqs))).
+    apply (expected_indices_map shaped_req); [apply shaped_lreq_eqb | assumption].
+  - destruct H as [-> | H]; [discriminate|].
+    rewrite (proj1 (nats_eqb_eq _ _) (meters_ok_lemma r d [] [] _)), gets_of_map.
+    apply (expected_indices_map shaped_req); [apply shaped_lreq_eqb | assumption].
+  - apply lg_indices.
+Qed.
+
+Lemma combine_map_fst : forall {A B} (a : list A) (b : list B), length a = length b -> map fst (combine a b) = a.
+Proof. intros A B a. induction a as [|x a IH]; intros [|y b] H; cbn in *; try reflexivity; try discriminate. f_equal. apply IH. lia. Qed.
+Lemma combine_map_snd : forall {A B} (a : list A) (b : list B), length a = length b -> map snd (combine a b) = b.
+Proof. intros A B a. induction a as [|x a IH]; intros [|y b] H; cbn in *; try reflexivity; try discriminate. f_equal. apply IH. lia. Qed.
+Lemma bools_eqb_refl : forall l, bools_eqb l l = true.
+Proof. induction l as [|b l IH]; cbn; [reflexivity|]. now rewrite Bool.eqb_reflx, IH. Qed.
+
+Lemma model_meets_spec_prace : forall kind r d threads, prace_good kind threads ->
+  spec_prace r d threads (prace_model kind r d threads) = [].
+Proof.
+  intros kind r d threads G. unfold spec_prace, prace_model.
+  set (reqs := concat threads ++ concat threads).
+  assert (HI : prace_indices kind r d reqs = expected_indices lreq_eqb reqs).
+  { apply prace_indices_spec. destruct G as [G | G]; [now left | right].
+    assert (F : Forall shaped_req (concat threads)).
+    { induction G as [|t ts Ht G IH]; cbn; [constructor | apply Forall_app; auto]. }
+    unfold reqs. apply Forall_app. auto. }
+  assert (HL : length (prace_indices kind r d reqs) = length reqs) by (rewrite HI; unfold expected_indices; apply map_length).
+  set (idx := prace_indices kind r d reqs) in *.
+  assert (E1 : map h_class (map (fun iq => mk_hobs (fst iq) (compute_config r d (q_scope (snd iq))) (q_scope (snd iq)) (amap_of (q_attrs (snd iq))))
+                                (combine idx reqs)) = idx).
+  { rewrite map_map. cbn [h_class]. now apply combine_map_fst. }
+  assert (E3 : map h_enabled (map (fun iq => mk_hobs (fst iq) (compute_config r d (q_scope (snd iq))) (q_scope (snd iq)) (amap_of (q_attrs (snd iq))))
+                                  (combine idx reqs)) = map (fun q => spec_config r d (q_scope q)) reqs).
+  { rewrite map_map. cbn [h_enabled]. rewrite <- (combine_map_snd idx reqs HL) at 2. rewrite map_map.
+    apply map_ext. intros iq. apply compute_config_spec. }
+  assert (E2 : prace_scopes_ok reqs (map (fun iq => mk_hobs (fst iq) (compute_config r d (q_scope (snd iq))) (q_scope (snd iq)) (amap_of (q_attrs (snd iq))))
+                                        (combine idx reqs)) = true).
+  { unfold prace_scopes_ok. rewrite map_length, combine_length, HL, Nat.min_id, Nat.eqb_refl. cbn [andb].
+    clear HI E1 E3. clearbody idx. revert idx HL. generalize reqs. induction reqs0 as [|q qs IH]; intros [|i idx] HL;
+      cbn [combine map forallb fst snd h_scope h_attrs length] in *; try reflexivity; try discriminate.
+    rewrite scope_eqb_refl. cbn [andb].
+    assert (A : attrs_equiv (amap_of (q_attrs q)) (q_attrs q) = true) by (apply attrs_equiv_iff; intros k; apply last_val_amap_of).
+    rewrite A. cbn [andb]. apply IH. lia. }
+  rewrite E1, E2, E3, HI, bools_eqb_refl. now rewrite (proj2 (nats_eqb_eq _ _) eq_refl).
+Qed.
+
+Example prace_nonvacuous :
+  let q := lreq_of_scope (mk_scope (bs "l") (bs "1") []) in
+  prace_good 0 [[q]; [q]] /\ map h_class (prace_model 0 [] true [[q]; [q]]) = [0; 0; 0; 0]%nat.
+Proof. cbn. split; [right; repeat constructor | vm_compute; reflexivity]. Qed.
+
 (* ---------- the whole extracted checker on the model's own output *)
 Definition case_good (c : case) : Prop :=
   match c with
@@ -144,6 +220,7 @@ Definition case_good (c : case) : Prop :=
   | CUnitC s => has_nul s = false
   | CPred k raw s => pred_model k raw s <> None
   | CMet r d vs keys ops => met_good r d vs keys ops
+  | CPrace kind r d threads => prace_good kind threads
   end.
 Definition model_obs (c : case) : list tok :=
   match c with
@@ -153,6 +230,7 @@ Definition model_obs (c : case) : list tok :=
   | CMet r d vs keys ops => print_met (run_met r d vs keys ops)
   | CTr r d ops => print_tr (run_tr r d ops)
   | CLg r d ops => print_lg (run_lg r d ops)
+  | CPrace kind r d threads => flat_map print_hobs (prace_model kind r d threads)
   end.
 Definition spec_on (c : case) : list tok :=
   match c with
@@ -162,15 +240,17 @@ Definition spec_on (c : case) : list tok :=
   | CMet r d vs keys ops => spec_met r d vs keys ops (fst (run_met r d vs keys ops)) (snd (run_met r d vs keys ops))
   | CTr r d ops => spec_tr r d ops (ts_out (run_tr r d ops)) (ts_spans (run_tr r d ops))
   | CLg r d ops => spec_lg r d ops (ls_out (run_lg r d ops)) (ls_recs (run_lg r d ops))
+  | CPrace kind r d threads => spec_prace r d threads (prace_model kind r d threads)
   end.
 
 Lemma model_meets_spec_lemma : forall c, case_good c -> spec_on c = [].
 Proof.
-  intros [s | s | k raw s | r d vs keys ops | r d ops | r d ops] H; cbn [spec_on].
+  intros [s | s | k raw s | r d vs keys ops | r d ops | r d ops | kind r d threads] H; cbn [spec_on].
   - apply model_meets_spec_name.
   - now apply model_meets_spec_unit.
   - destruct (pred_model k raw s) eqn:E; [now apply model_meets_spec_pred | reflexivity].
   - now apply model_meets_spec_met.
   - apply model_meets_spec_tr.
   - apply model_meets_spec_lg.
+  - now apply model_meets_spec_prace.
 Qed.
